@@ -42,8 +42,8 @@ Mark(ep, d) == [ep EXCEPT !.dev = @ \cup {d}]
 FPreface == [t |-> "PREFACE"]
 FSettings(pairs) == [t |-> "SET", ack |-> FALSE, s |-> pairs]
 FSettingsAck == [t |-> "SET", ack |-> TRUE, s |-> <<>>]
-FHeaders(sid, es, h, pr) == [t |-> "HEADERS", sid |-> sid, es |-> es, h |-> h, pr |-> pr, blk |-> "ok"]   \* h: tokens
-FPush(sid, pid, h) == [t |-> "PP", sid |-> sid, pid |-> pid, h |-> h, blk |-> "ok"]
+FHeaders(sid, es, h, pr, ets) == [t |-> "HEADERS", sid |-> sid, es |-> es, h |-> h, pr |-> pr, blk |-> "ok", ets |-> ets]   \* h: tokens; ets: sender's HPACK table size
+FPush(sid, pid, h, ets) == [t |-> "PP", sid |-> sid, pid |-> pid, h |-> h, blk |-> "ok", ets |-> ets]
 FData(sid, es, n, tag, pad) == [t |-> "DATA", sid |-> sid, es |-> es, n |-> n, tag |-> tag, pad |-> pad]
 FRst(sid, code) == [t |-> "RST", sid |-> sid, code |-> code]
 FPing(ack, tag) == [t |-> "PING", ack |-> ack, tag |-> tag]
@@ -103,6 +103,14 @@ SAck(S) ==
                       !.hn = @ \ {ids[i] : i \in 1..Len(ids)}]
   IN [S |-> S2, ch |-> changes]
 ChangeOf(ch, id) == LET S == {i \in 1..Len(ch) : ch[i][1] = id} IN IF S = {} THEN None ELSE Some(ch[CHOOSE i \in S : TRUE])
+\* a SETTINGS payload as a dictionary: one value per identifier (the last one), in order of first appearance
+RECURSIVE Collapse(_)
+Collapse(p) ==
+  IF p = <<>> THEN <<>>
+  ELSE LET id == p[1][1]
+           S == {i \in 1..Len(p) : p[i][1] = id}
+           lastv == p[CHOOSE i \in S : \A j \in S : j <= i][2]
+       IN <<<<id, lastv>>>> \o Collapse(SelectSeq(Tail(p), LAMBDA q : q[1] # id))
 \* SETTINGS_MAX_CONCURRENT_STREAMS with its "unset = unlimited" default; big wire values are negative here
 WithinConcurrency(nOpen, S) == ~SHas(S, 3) \/ SCur(S, 3) < 0 \/ nOpen + 1 <= SCur(S, 3)
 
@@ -183,6 +191,10 @@ InitEp(role, cfg, maxClosed) ==
    streams |-> <<>>, sord |-> <<>>, closed |-> <<>>, hiIn |-> 0, hiOut |-> 0,
    ls |-> InitSettings(role = "c", TRUE), rs |-> InitSettings(role # "c", FALSE),
    ow |-> 65535, iw |-> WM(65535), mof |-> 16384, mif |-> 16384, hdrCap |-> 65536,
+   encSize |-> 4096,            \* HPACK encoder table size (follows the peer's HEADER_TABLE_SIZE)
+   decMax |-> 4096,             \* largest table size the HPACK decoder accepts (own acknowledged HEADER_TABLE_SIZE)
+   lsF |-> <<>>,                \* SETTINGS frames sent and not yet acknowledged, as the PEER counts them (one per frame)
+   peerEnc |-> 4096,            \* table size a conforming peer's encoder uses: changes when the peer ACKs the frame carrying it
    needPre |-> role = "s",      \* a server's frame buffer first expects the client preface
    out |-> <<>>,                \* frames appended to the output buffer and not yet taken by data_to_send
    hd |-> FALSE,                \* the HPACK encoder context is no longer predictable (a failed send consumed it)
@@ -254,7 +266,9 @@ Initiate(ep) ==
   LET c1 == ConnStep(ep, "SEND_SETTINGS") IN
   IF ~c1.ok THEN CR(c1.ep, PE)
   ELSE LET pairs == [i \in 1..Len(ep.ls.ord) |-> <<ep.ls.ord[i], SCur(ep.ls, ep.ls.ord[i])>>]
-       IN CR(Emit(c1.ep, (IF ep.role = "c" THEN <<FPreface>> ELSE <<>>) \o <<FSettings(pairs)>>), OK)
+       \* the initial frame changes nothing (its values are in force already): it counts as an empty change set
+       IN CR(Emit([c1.ep EXCEPT !.lsF = Append(@, <<>>)],
+                  (IF ep.role = "c" THEN <<FPreface>> ELSE <<>>) \o <<FSettings(pairs)>>), OK)
 
 StreamSendHeaders(ep, c) ==
   LET sid == c.sid
@@ -272,10 +286,10 @@ StreamSendHeaders(ep, c) ==
                   ELSE LET s3 == [s2 EXCEPT !.auth = IF s2.cl = "T" /\ @ = "None" THEN AuthorityOf(c.h) ELSE @,
                                             !.meth = MethodOf(c.h)]
                            e3 == Put(ep, sid, s3)
-                       IN IF ~PrioPresent(c.pr) THEN CR(Emit(e3, <<FHeaders(sid, c.es, pipe.h, <<>>)>>), OK)
+                       IN IF ~PrioPresent(c.pr) THEN CR(Emit(e3, <<FHeaders(sid, c.es, pipe.h, <<>>, ep.encSize)>>), OK)
                           ELSE IF ep.role = "s" THEN CR(Mark(Dirty(e3), "failed_send_partial_state"), Exc("RFC1122Error", -1))
                           ELSE IF PrioBad(sid, c.pr) THEN CR(Mark(Dirty(e3), "failed_send_partial_state"), PE)
-                          ELSE CR(Emit(e3, <<FHeaders(sid, c.es, pipe.h, PrioFields(c.pr))>>), OK)
+                          ELSE CR(Emit(e3, <<FHeaders(sid, c.es, pipe.h, PrioFields(c.pr), ep.encSize)>>), OK)
 
 SendHeaders(ep, c) ==
   LET isNew == ~Has(ep, c.sid)
@@ -349,7 +363,7 @@ PushStream(ep, c) ==
                 e2 == Put(b.ep, c.sid, p.st)
             IN IF ~pipe.ok THEN CR(Mark(IF pipe.clean THEN e2 ELSE Dirty(e2), "failed_send_partial_state"), PE)
                ELSE LET q == Process(e2.streams[c.pid], "SEND_PUSH_PROMISE")
-                    IN CR(Emit(Put(e2, c.pid, q.st), <<FPush(c.sid, c.pid, pipe.h)>>), OK)
+                    IN CR(Emit(Put(e2, c.pid, q.st), <<FPush(c.sid, c.pid, pipe.h, ep.encSize)>>), OK)
 
 Ping(ep, c) ==
   IF c.n # 8 THEN CR(ep, Exc("ValueError", -1))
@@ -376,7 +390,7 @@ UpdateSettings(ep, c) ==
        IF u.code # 0
        THEN CR(IF u.S # ep.ls THEN Mark([c1.ep EXCEPT !.ls = u.S], "update_settings_partial") ELSE c1.ep,
                Exc("InvalidSettingsValueError", u.code))
-       ELSE CR(Emit([c1.ep EXCEPT !.ls = u.S], <<FSettings(c.s)>>), OK)
+       ELSE CR(Emit([c1.ep EXCEPT !.ls = u.S, !.lsF = Append(@, c.s)], <<FSettings(c.s)>>), OK)
 
 AdvertiseAltSvc(ep, c) ==
   IF c.org # <<>> /\ c.sid # <<>> THEN CR(ep, Exc("ValueError", -1))
@@ -441,8 +455,12 @@ RecvPriorityPart(ep, sid, pr) ==       \* _receive_priority_frame on a PRIORITY 
   ELSE IF pr[2] = sid THEN RR(c1.ep, PE, <<>>)
   ELSE RR(c1.ep, OK, <<EvPrio(sid, pr[1], pr[2], pr[3])>>)
 
+UGt(a, b) == IF (a < 0) = (b < 0) THEN a > b ELSE a < 0       \* unsigned comparison of 32-bit wire values
 DecodeFailure(ep, f) ==      \* _decode_headers: "ok" or the exception
-  IF f.blk = "bad" THEN PE ELSE IF f.blk = "big" THEN Exc("DenialOfServiceError", 11) ELSE OK
+  IF f.blk = "bad" THEN PE ELSE IF f.blk = "big" THEN Exc("DenialOfServiceError", 11)
+  ELSE IF ep.hdrCap >= 0 /\ ListSize(f.h) > ep.hdrCap THEN Exc("DenialOfServiceError", 11)   \* decoder.max_header_list_size
+  ELSE IF UGt(f.ets, ep.decMax) THEN PE       \* the peer's encoder uses a larger table than the decoder allows
+  ELSE OK
 
 \* stream.receive_headers
 StreamRecvHeaders(ep, f) ==
@@ -539,8 +557,15 @@ RecvSettings(ep, f) ==
   ELSE IF f.ack
   THEN \* _local_settings_acked
        LET a == SAck(ep.ls)
-           perKey == \E id \in DOMAIN ep.ls.q : Len(ep.ls.q[id]) > 2      \* something stays pending: matching is per key
-           e1 == [c1.ep EXCEPT !.ls = a.S]
+           frame == IF ep.lsF = <<>> THEN <<>> ELSE Collapse(ep.lsF[1])         \* the frame this ACK answers
+           strict == [i \in 1..Len(frame) |-> <<frame[i][1], frame[i][2]>>]
+           asBuilt == [i \in 1..Len(a.ch) |-> <<a.ch[i][1], a.ch[i][3]>>]
+           hts == SelectSeq(frame, LAMBDA q : q[1] = 1)
+           ht == ChangeOf(a.ch, 1)
+           e0 == [c1.ep EXCEPT !.ls = a.S, !.lsF = IF @ = <<>> THEN @ ELSE Tail(@),
+                               !.peerEnc = IF hts = <<>> THEN @ ELSE hts[1][2],
+                               !.decMax = IF ht = None THEN @ ELSE ht[1][3]]
+           e1 == IF strict # asBuilt THEN Mark(e0, "ack_per_key") ELSE e0
            iws == ChangeOf(a.ch, 4)
            d == IF iws = None THEN [ep |-> e1, ok |-> TRUE] ELSE ApplyInDelta(e1, e1.sord, iws[1][3] - iws[1][2][1])
            hl == ChangeOf(a.ch, 6)
@@ -548,10 +573,11 @@ RecvSettings(ep, f) ==
            e2 == [d.ep EXCEPT !.hdrCap = IF hl = None THEN @ ELSE hl[1][3], !.mif = IF mf = None THEN @ ELSE mf[1][3]]
        IN IF ~d.ok THEN RR(d.ep, FCE, <<>>)
           ELSE RR(e2, OK, <<[t |-> "SAck", ch |-> a.ch]>>)
-  ELSE LET u == SUpdate(ep.rs, f.s) IN
+  ELSE LET fs == Collapse(f.s)            \* the frame parser keeps one value per identifier (the last), in first-seen order
+           u == SUpdate(ep.rs, fs) IN
        IF u.code # 0 THEN RR([c1.ep EXCEPT !.rs = u.S], Exc("InvalidSettingsValueError", u.code), <<>>)
-       ELSE LET ev == [t |-> "RSet", ch |-> [i \in 1..Len(f.s) |->
-                         <<f.s[i][1], IF SHas(ep.rs, f.s[i][1]) THEN Some(SCur(ep.rs, f.s[i][1])) ELSE None, f.s[i][2]>>]]
+       ELSE LET ev == [t |-> "RSet", ch |-> [i \in 1..Len(fs) |->
+                         <<fs[i][1], IF SHas(ep.rs, fs[i][1]) THEN Some(SCur(ep.rs, fs[i][1])) ELSE None, fs[i][2]>>]]
                 \* RemoteSettingsChanged.from_settings reads the values AFTER the update: still the old current ones
                 c2 == ConnStep([c1.ep EXCEPT !.rs = u.S], "SEND_SETTINGS")
             IN IF ~c2.ok THEN RR(c2.ep, PE, <<>>)
@@ -561,7 +587,9 @@ RecvSettings(ep, f) ==
                         d == IF iws = None THEN [ep |-> e1, ok |-> TRUE]
                              ELSE ApplyOutDelta(e1, e1.sord, iws[1][3] - iws[1][2][1])
                         mf == ChangeOf(a.ch, 5)
-                        e2 == [d.ep EXCEPT !.mof = IF mf = None THEN @ ELSE mf[1][3]]
+                        ht == ChangeOf(a.ch, 1)
+                        e2 == [d.ep EXCEPT !.mof = IF mf = None THEN @ ELSE mf[1][3],
+                                           !.encSize = IF ht = None THEN @ ELSE ht[1][3]]
                     IN IF ~d.ok THEN RR(d.ep, FCE, <<>>)
                        ELSE RR(Emit(e2, <<FSettingsAck>>), OK, <<ev>>)
 
@@ -643,7 +671,13 @@ RecvPushPromise(ep, f) ==
                                      s2 == [q.st EXCEPT !.auth = AuthorityOf(f.h)]
                                  IN RR(Put(b.ep, f.pid, s2), OK, <<EvPush(f.pid, f.sid, pipe.h)>>)
 
+\* frame-level rules the frame parser enforces before any state is looked at (RFC 7540 section 6):
+\* stream-bound frames on stream 0 and connection frames on a stream are PROTOCOL_ERRORs
+BadStreamZero(f) ==
+  \/ f.t \in {"HEADERS", "DATA", "RST", "PRIO", "PP", "CONT"} /\ f.sid = 0
+  \/ f.t = "PP" /\ (f.pid = 0 \/ f.pid % 2 = 1)
 Dispatch(ep, f) ==
+  IF BadStreamZero(f) THEN RR(ep, PE, <<>>) ELSE
   CASE f.t = "HEADERS" -> RecvHeaders(ep, f)
     [] f.t = "DATA"    -> RecvData(ep, f)
     [] f.t = "SET"     -> RecvSettings(ep, f)
